@@ -85,6 +85,31 @@ class Ctx:
         return f"{mod.rel}:{getattr(node, 'lineno', 0)}"
 
 
+class RenamedCtx:
+    """View of a Ctx that re-emits another property's rule under this property's rule id
+    (properties that depend on the same structural clause re-run the rule under their own keys)."""
+
+    def __init__(self, ctx: Ctx, mapping: Dict[str, str], only: Optional[str] = None):
+        self._ctx = ctx
+        self._map = mapping
+        self._only = only
+
+    def _rid(self, rid):
+        return self._map.get(rid, rid)
+
+    def rule(self, rid, desc):
+        self._ctx.rule(self._rid(rid), desc)
+
+    def ob(self, rule, instance, ok, where="", msg="", path=None):
+        self._ctx.ob(self._rid(rule), instance, ok, where, msg, path)
+
+    def floor(self, rule, what, count, minimum):
+        self._ctx.floor(self._rid(rule), what, count, minimum)
+
+    def __getattr__(self, name):
+        return getattr(self._ctx, name)
+
+
 def load_known() -> Dict[str, Any]:
     p = os.path.join(VERIF, "known_findings.json")
     if not os.path.exists(p):
